@@ -63,16 +63,18 @@ theorem gnSels_view (s : SchemaD) : ∀ (xs : List Sel) (v : View), gnSels (View
 end
 
 theorem gnVarDefs_view (s : SchemaD) (vars : List VarDef) (v : View) :
-    vars.flatMap (gnVarDef (View.enter s) v) = withView v (vars.flatMap varDefNodes) := by
+    vars.flatMap (gnVarDef (View.enter s) v) = vars.flatMap (tnVarDef s v) := by
   induction vars with
   | nil => rfl
   | cons x xs ih =>
-    simp only [List.flatMap_cons, withView_append', ih]
+    simp only [List.flatMap_cons, ih]
     congr 1
-    rw [gnVarDef, varDefNodes, withView_cons', withView_append']
+    have e1 : View.enter s (.varDef x) v = v := rfl
+    have e2 : View.enter s (.typeNode x.type) v = v := rfl
+    rw [gnVarDef, tnVarDef, withView_cons', withView_append', gnDirs_view, e1, e2]
     cases x.default with
-    | none => rfl
-    | some dv => simp only [gnValue_view]; rfl
+    | none => simp [withView]
+    | some dv => simp only [gnValue_view]; simp [withView]
 
 theorem gnDef_view (s : SchemaD) (d : Def) : gnDef (View.enter s) {} d = tnDef s d := by
   cases d with
